@@ -39,7 +39,8 @@ def _impl_pattern(c):
     sig = np.array(c['sig'], dtype=float)
     b = np.array(proto.dec_bits(c['b']))
     orig_f, orig_l = ex.filter_signal, ex.compute_filter_length
-    ex.filter_signal = lambda s, *a, **k: np.where(b, 1.0, -1.0)
+    z = np.array(proto.dec_bits(c['z'])) if c.get('z') else np.zeros(len(b), bool)
+    ex.filter_signal = lambda s, *a, **k: np.where(b, 1.0, np.where(z, 0.0, -1.0))     # exact zeros count as non-positive
     ex.compute_filter_length = lambda *a, **k: 2 * c['padlen'] - 1 if c['padlen'] > 0 else 0
     try:
         pk, tr = ex.find_extrema(sig, 100, (8, 12), boundary=c['boundary'], first_extrema=c['first'], pad=c['padlen'] > 0)
@@ -78,7 +79,8 @@ def generate(ctx):
             ln = int(rng.integers(1, 7)) if rng.random() < 0.9 else m
             b[pos:pos + ln] = val; pos += ln; val = not val
         sig = [int(x) for x in rng.integers(-2, 3, size=n)]
-        cases.append(dict(kind='pattern', sig=sig, b=proto.enc_bits(b), padlen=padlen, boundary=int(rng.choice([0, 0, 1, 2, 5])),
+        z = proto.enc_bits((~b) & (rng.random(m) < rng.choice([0.0, 0.5, 1.0])))
+        cases.append(dict(kind='pattern', sig=sig, b=proto.enc_bits(b), z=z, padlen=padlen, boundary=int(rng.choice([0, 0, 1, 2, 5])),
                           first=str(rng.choice(['peak', 'trough', 'None']))))
     return cases
 
